@@ -116,7 +116,7 @@ def check(repo, tier):
                             for g in (c.legs[0], c.legs[3]):
                                 for l in g:
                                     l = l.resolve()
-                                    if l.kind == 'R' and l.conj:
+                                    if l.kind == 'R' and l.conj and l.key[0] != 'B':
                                         bad.append(f'core {k} carries a conjugated bond index {l}')
                                     if l.kind == 'M':
                                         bad.append(f'core {k} carries mode index {l} on a rank axis')
